@@ -35,6 +35,20 @@ def run_wqcases(chk, pid, runner, tier, seed, workdir, log, only_key):
                 "samples": [c["desc"]["script"] for c in cases[:: max(1, len(cases) // 4)][:4]],
                 "extra": {k: v for k, v in stats.items()
                           if k not in ("histogram", "evaluations", "distinct", "distinct_nontrivial", "chunk", "chunks", "scope")}})
+    # child processes that crashed or hung (C19): classified by panic message + frames; bin/check matches the
+    # signature against the known findings (K5) and reports everything else
+    cseen = set()
+    for c in stats.get("crashes", []) or []:
+        if c["signature"] in cseen:
+            continue
+        cseen.add(c["signature"])
+        res["failures"].append({"kind": "monitor", "theorem_or_correspondence": "no crash, no hang (child process)",
+                                "case": {k2: c[k2] for k2 in ("W", "L", "script", "steps_completed", "kind", "panic", "frames")},
+                                "stimuli": c["stimuli"], "detail": c["stderr_tail"][:1200], "signature": c["signature"],
+                                "found_failing_input": True,
+                                "n_children_with_this_signature": sum(1 for d in stats["crashes"] if d["signature"] == c["signature"])})
+    res["extra"]["crash_signatures"] = sorted(cseen)
+    res["extra"].pop("crashes", None)
     if verdicts is None:
         res["failures"].append({"kind": "correspondence", "theorem_or_correspondence": corr,
                                 "detail": "coqc could not evaluate the cases: " + log[-1][2][-1500:],
@@ -148,8 +162,8 @@ def run_wqstress(chk, pid, runner, tier, seed, workdir, log, only_key):
     races = re.findall(r"WARNING: DATA RACE\n(.*?)\n==================", err, flags=re.S)
     rseen = set()
     for blk in races:
-        fns = re.findall(r"^\s+((?:github\.com/rbell/toolchest/)?workqueue\.[^\s(]+)", blk, flags=re.M)
-        fns = sorted(set(f.split("/")[-1] for f in fns))
+        fns = re.findall(r"toolchest/(workqueue\.\S+?)\(\)", blk)
+        fns = sorted(set(fns))
         sig = "race:" + ",".join(fns[:4])
         if sig in rseen:
             continue
